@@ -297,8 +297,10 @@ class DiscreteMultiVariable(Variable):
     def randomize(self):
         return [v.randomize() for v in self._children]
 
-    def get_bounds(self) -> list[tuple[int, int]]:
-        return [v.get_bounds() for v in self._children]
+    def get_bounds(self) -> tuple[list[int], list[int]]:
+        # lower bounds and upper bounds, like the other multi-variables (Task.get_bounds unpacks the pair)
+        bounds = [v.get_bounds() for v in self._children]
+        return [lb for lb, _ in bounds], [ub for _, ub in bounds]
 
     def correct(self, value: list):
         return [v.correct(value[idx]) for idx, v in enumerate(self._children)]
